@@ -2,8 +2,8 @@
 # tools/seed_matrix.sh [ids...] : every seeded change (both rounds) against the check of its own property (quick tier). One line each.
 cd "$(dirname "$0")/.."
 ids="$@"
-[ -z "$ids" ] && ids=$(ls seeded | grep -E '^C[0-9]{2}b?$')
+[ -z "$ids" ] && ids=$(ls seeded | grep -E '^C[0-9]{2}[bc]?$')
 for id in $ids; do
-  chk=${id%b}
+  chk=${id%[bc]}
   echo "seed $id vs check $chk: $(tools/seed.sh $chk /verif/seeded/$id | cut -c1-260)"
 done
